@@ -5,9 +5,16 @@
 //! is run on the real pico; after every call the memoized value is compared with a
 //! from-scratch evaluation on the current sources. (Sources are always present: the
 //! absent-source case is the separate known finding C01.O-2b.)
-//! Exit 0 = all agree, exit 1 = a stale value (the history is printed).
+//! In collection-free histories the number of times each memoized body ran is compared with a
+//! reference model of minimal re-execution (C02, incl. backdating).
+//! Exit 0 = all agree, exit 1 = a stale value or a wrong execution count (history printed).
+use std::sync::atomic::{AtomicUsize, Ordering};
+
 use pico::{Database, SourceId, Storage};
 use pico_macros::{Db, Source, memo};
+
+/// how often each memoized body ran: first, upper, alpha, describe, combo
+static RUNS: [AtomicUsize; 5] = [AtomicUsize::new(0), AtomicUsize::new(0), AtomicUsize::new(0), AtomicUsize::new(0), AtomicUsize::new(0)];
 
 #[derive(Db, Default)]
 struct TestDatabase {
@@ -22,22 +29,50 @@ struct Input {
 }
 
 #[memo]
-fn first(db: &TestDatabase, id: SourceId<Input>) -> char { db.get(id).value.chars().next().unwrap() }
+fn first(db: &TestDatabase, id: SourceId<Input>) -> char { RUNS[0].fetch_add(1, Ordering::SeqCst); db.get(id).value.chars().next().unwrap() }
 #[memo]
-fn upper(db: &TestDatabase, id: SourceId<Input>) -> char { first(db, id).to_ascii_uppercase() }
+fn upper(db: &TestDatabase, id: SourceId<Input>) -> char { RUNS[1].fetch_add(1, Ordering::SeqCst); first(db, id).to_ascii_uppercase() }
 /// same value for every alphabetic first letter: backdated when the letter changes
 #[memo]
-fn alpha(db: &TestDatabase, id: SourceId<Input>) -> bool { first(db, id).is_alphabetic() }
+fn alpha(db: &TestDatabase, id: SourceId<Input>) -> bool { RUNS[2].fetch_add(1, Ordering::SeqCst); first(db, id).is_alphabetic() }
 /// reaches `first` by two routes, the backdated one first
 #[memo]
 fn describe(db: &TestDatabase, id: SourceId<Input>) -> String {
+    RUNS[3].fetch_add(1, Ordering::SeqCst);
     let a = *alpha(db, id);
     let l = *first(db, id);
     format!("{l}:{a}")
 }
 #[memo]
 fn combo(db: &TestDatabase, a: SourceId<Input>, b: SourceId<Input>) -> String {
+    RUNS[4].fetch_add(1, Ordering::SeqCst);
     format!("{}{}", *upper(db, a), db.get(b).value)
+}
+
+/// Reference for C02 (collection-free histories): a body runs exactly when it never ran, or a
+/// DIRECT input has changed since its last run - a source by its number of effective writes, a
+/// memoized dependency by its revision, which advances only when the dependency re-runs to a
+/// value different from its previous one (backdating: an intermediate that re-runs to an equal
+/// value does not make its dependents re-run).
+#[derive(Default)]
+struct Model { va: usize, vb: usize, seen: [Option<Vec<usize>>; 5], value: [String; 5], rev: [usize; 5], expected: [usize; 5] }
+impl Model {
+    fn ensure(&mut self, f: usize, av: &str, bv: &str) {
+        let l = av.chars().next().unwrap();
+        let (inputs, value) = match f {
+            0 => (vec![self.va], l.to_string()),
+            1 => { self.ensure(0, av, bv); (vec![self.rev[0]], l.to_ascii_uppercase().to_string()) }
+            2 => { self.ensure(0, av, bv); (vec![self.rev[0]], l.is_alphabetic().to_string()) }
+            3 => { self.ensure(2, av, bv); self.ensure(0, av, bv); (vec![self.rev[2], self.rev[0]], format!("{l}:{}", l.is_alphabetic())) }
+            _ => { self.ensure(1, av, bv); (vec![self.rev[1], self.vb], format!("{}{bv}", l.to_ascii_uppercase())) }
+        };
+        if self.seen[f].as_ref() != Some(&inputs) {
+            self.expected[f] += 1;
+            if self.seen[f].is_none() || self.value[f] != value { self.rev[f] += 1; }
+            self.value[f] = value;
+            self.seen[f] = Some(inputs);
+        }
+    }
 }
 
 const A_VALUES: [&str; 3] = ["ax", "ay", "qx"];
@@ -45,6 +80,9 @@ const B_VALUES: [&str; 2] = ["1", "2"];
 const OPS: usize = 11;
 
 fn run(history: &[usize]) -> Result<(), String> {
+    for r in &RUNS { r.store(0, Ordering::SeqCst); }
+    let mut model = Model::default();
+    let count_runs = !history.contains(&10);
     let mut db = TestDatabase { storage: Storage::new_with_capacity(2.try_into().unwrap()) };
     let (mut av, mut bv) = (A_VALUES[0].to_string(), B_VALUES[0].to_string());
     let a = db.set(Input { key: "a", value: av.clone() });
@@ -55,14 +93,23 @@ fn run(history: &[usize]) -> Result<(), String> {
             Err(format!("history {:?} step {n}: {what} returned {got:?}, from scratch {want:?} (ops: 0-2 set a, 3-4 set b, 5 first, 6 upper, 7 alpha, 8 describe, 9 combo, 10 collect)", history))
         };
         match *op {
-            0..=2 => { av = A_VALUES[*op].to_string(); db.set(Input { key: "a", value: av.clone() }); }
-            3..=4 => { bv = B_VALUES[*op - 3].to_string(); db.set(Input { key: "b", value: bv.clone() }); }
+            0..=2 => { if av != A_VALUES[*op] { model.va += 1; } av = A_VALUES[*op].to_string(); db.set(Input { key: "a", value: av.clone() }); }
+            3..=4 => { if bv != B_VALUES[*op - 3] { model.vb += 1; } bv = B_VALUES[*op - 3].to_string(); db.set(Input { key: "b", value: bv.clone() }); }
             5 => { let g = *first(&db, a); if g != f { return bad("first", g.to_string(), f.to_string()); } }
             6 => { let g = *upper(&db, a); let w = f.to_ascii_uppercase(); if g != w { return bad("upper", g.to_string(), w.to_string()); } }
             7 => { let g = *alpha(&db, a); let w = f.is_alphabetic(); if g != w { return bad("alpha", g.to_string(), w.to_string()); } }
             8 => { let g = describe(&db, a).clone(); let w = format!("{f}:{}", f.is_alphabetic()); if g != w { return bad("describe", g, w); } }
             9 => { let g = combo(&db, a, b).clone(); let w = format!("{}{}", f.to_ascii_uppercase(), bv); if g != w { return bad("combo", g, w); } }
             _ => db.run_garbage_collection(),
+        }
+        if count_runs && (5..=9).contains(op) {
+            model.ensure(*op - 5, &av, &bv);
+            for f in 0..5 {
+                let ran = RUNS[f].load(Ordering::SeqCst);
+                if ran != model.expected[f] {
+                    return Err(format!("history {:?} step {n}: the body of function {f} (0 first, 1 upper, 2 alpha, 3 describe, 4 combo) ran {ran} time(s), minimal re-execution needs {} (ops: 0-2 set a, 3-4 set b, 5 first, 6 upper, 7 alpha, 8 describe, 9 combo)", history, model.expected[f]));
+                }
+            }
         }
     }
     Ok(())
@@ -79,10 +126,10 @@ fn main() {
             for _ in 0..len { h.push(c % OPS); c /= OPS; }
             n += 1;
             if let Err(m) = run(&h) {
-                println!("STALE: {m}");
+                println!("DIFFERENT: {m}");
                 std::process::exit(1);
             }
         }
     }
-    println!("histories={n} every memoized value equals the from-scratch value");
+    println!("histories={n} every memoized value equals the from-scratch value; execution counts match minimal re-execution");
 }
